@@ -224,7 +224,7 @@ func (e *Env) eval(x Expr) Val {
 		switch u := v.T.Underlying().(type) {
 		case *types.Slice:
 			i := e.evalIndex(x.I)
-			return c.loadElem(e.st, u.Elem(), v.L[0], app("bvadd", v.L[1], i))
+			return c.loadElem(e.st, u.Elem(), v.L[0], idxAt(v.L[1], i))
 		case *types.Map:
 			mi := c.mapInfo(v.T)
 			k := e.evalTyped(x.I, mi.K)
@@ -663,8 +663,40 @@ func (e *Env) evalQuant(x *EQuant) Val {
 	return boolVal(fmt.Sprintf("(%s (%s) %s)", q, strings.Join(binders, " "), body))
 }
 
+// evalMethod: spec-level call of a deterministic extern method, e.g. req.FARID().
+func (e *Env) evalMethod(recv Val, name string, argExprs []Expr) Val {
+	c := e.c
+	if recv.T == nil {
+		c.fail("spec: method call on untyped value")
+	}
+	obj, _, _ := types.LookupFieldOrMethod(recv.T, true, nil, name)
+	fnObj, ok := obj.(*types.Func)
+	if !ok {
+		c.fail("spec: %s has no method %s", recv.T, name)
+	}
+	fn := c.W.prog.FuncValue(fnObj)
+	if fn == nil || !c.W.isDeterministic(fn) {
+		c.fail("spec: method %s.%s is not declared deterministic", recv.T, name)
+	}
+	sig := fnObj.Type().(*types.Signature)
+	args := []Val{recv}
+	for i, a := range argExprs {
+		args = append(args, e.evalTyped(a, sig.Params().At(i).Type()))
+	}
+	rv := c.detResults(fnKey(fn), sig.Results(), args)
+	return packResults(rv, sig.Results())
+}
+
 func (e *Env) evalCall(x *ECall) Val {
 	c := e.c
+	if x.Recv != nil {
+		return e.evalMethod(e.eval(x.Recv), x.Fun, x.Args)
+	}
+	if x.Pkg != "" {
+		if v, ok := e.vars[x.Pkg]; ok {
+			return e.evalMethod(v, x.Fun, x.Args)
+		}
+	}
 	if x.Pkg == "" {
 		switch x.Fun {
 		case "len":
@@ -685,6 +717,18 @@ func (e *Env) evalCall(x *ECall) Val {
 				return Val{T: types.Typ[types.Int], L: []string{c.chanLen(e.st, v.L[0])}}
 			}
 			c.fail("spec: len of %s", v.T)
+		case "val":
+			v := e.eval(x.Args[0])
+			if len(v.Tup) < 1 {
+				c.fail("spec: val() needs a call with results")
+			}
+			return v.Tup[0]
+		case "ok":
+			v := e.eval(x.Args[0])
+			if len(v.Tup) < 2 {
+				c.fail("spec: ok() needs a call returning (value, error)")
+			}
+			return boolVal(tEq(v.Tup[len(v.Tup)-1].L[0], "inil"))
 		case "allocated":
 			v := e.eval(x.Args[0])
 			return boolVal(tSel(c.allocComp(e.st), v.L[0]))
